@@ -55,6 +55,14 @@ def whyInvalidFlat : STMoc → String
      | _, _ => "not-one-time-range")
 
 
+/-- Flat form: every element has exactly one time range. -/
+def toFlat : STMoc → Option FlatST
+  | [] => some []
+  | e :: t =>
+    match e.1, toFlat t with
+    | [r], some f => some ((r, e.2) :: f)
+    | _, _ => none
+
 def stepST (toks : List String) : Option String :=
   match toks with
   | ["st_sem", tt, a, b, tp, sp] => do
@@ -68,6 +76,16 @@ def stepST (toks : List String) : Option String :=
   | ["st_sfold", sm, a, tp] => do
     let sm ← parseRngs sm; let a ← parseST a; let tp ← parseNats tp
     pure (bits (tp.map fun t => sfoldB sm a t))
+  | ["st_tfold_r", tm, a] => do
+    let tm ← parseRngs tm; let a ← parseST a
+    match toFlat a with
+    | some f => pure (showRngs (tfoldRanges tm f))
+    | none => pure "not-flat"
+  | ["st_sfold_r", sm, a] => do
+    let sm ← parseRngs sm; let a ← parseST a
+    match toFlat a with
+    | some f => pure (showRngs (sfoldRanges sm f))
+    | none => pure "not-flat"
   | ["st_contains", a, t, s] => do
     let a ← parseST a; let t ← t.toNat?; let s ← s.toNat?
     pure (showBool (memSTB t s a))
